@@ -76,4 +76,20 @@ theorem iour_blocking_fallback_counterexample :
   unfold Compio.Produced.St.finished
   decide
 
+/-- seed C06-4a as a model: a `cancel` that stops after the first descriptor whose interest it removed.
+For a two-descriptor op (`Splice`) one interest — and with it one key clone — survives: the op is never
+dropped, its clones of both pipe ends are never released. -/
+def cancelFirstOnly (s : Compio.MultiWait.St) (key : Nat) : List Nat → Compio.MultiWait.St
+  | [] => s
+  | fd :: rest =>
+    if s.reg.any (fun e => e == (fd, key)) then
+      { s with reg := s.reg.filter (fun e => !(e == (fd, key))), completed := key :: s.completed }
+    else cancelFirstOnly s key rest
+
+theorem cancel_first_only_counterexample :
+    Compio.MultiWait.keyRefs
+      (Compio.MultiWait.reap
+        (cancelFirstOnly (Compio.MultiWait.dropFuture (Compio.MultiWait.push Compio.MultiWait.init 7 [3, 4]) 7) 7 [3, 4]) 7) 7
+      = 1 := by decide
+
 end Compio.Cex.C06
